@@ -258,7 +258,8 @@ def certsConsistent (obs : Json) : Bool :=
           | c => jtok (jget c "serial") == serial &&
               jstr (jpath pca ["children", h, "state"]) == "active"
 
-def rpPreds (obs : Json) (objs : List (String × List (Nat × ClassO))) (synced : String → Bool) : List String :=
+def rpPreds (obs : Json) (objs : List (String × List (Nat × ClassO))) (synced : String → Bool)
+    (ignoredRevokes : List String) : List String :=
   let rp := jget obs "rp"
   if jisNull rp then [] else
   -- decoded manifests/CRLs of every CA whose server content is its object set
@@ -279,8 +280,12 @@ def rpPreds (obs : Json) (objs : List (String × List (Nat × ClassO))) (synced 
   (probs.map fun p =>
     let kind := jstr (jget p "kind")
     let detail := jstr (jget p "detail")
+    let uri := jstr (jget p "uri")
     if kind == "decode-error" && (detail.splitOn "resources extensions are missing").length > 1
-    then "RpTreeValid/empty-resources-cert" else s!"RpTreeValid/{kind}") ++
+    then "RpTreeValid/empty-resources-cert"
+    else if kind == "no-manifest" && ignoredRevokes.any (fun k => (uri.splitOn s!"/{k}.").length > 1)
+    then "RpTreeValid/no-manifest-after-ignored-revocation"
+    else s!"RpTreeValid/{kind}") ++
   (if (jarr (jget rp "missing")).isEmpty then [] else ["RpTreeValid/missing"]) ++
   mustBeAccepted obs objs ++
   (if sortP (dedupP (rpVrps rp)) == sortP (dedupP vr) then [] else ["RpPayloadsExact"]) ++
